@@ -15,6 +15,12 @@ NONEZ = -99999
 BAD_VALUE = frozenset({1})
 
 
+def _late(dt, from_string, to_string):
+    dt.from_string = from_string
+    dt.to_string = to_string
+    return dt
+
+
 def type_table(E):
     """name -> (factory for the EDataType, kind of type default, sample values, literal)"""
     def user(name, icn):
@@ -38,6 +44,13 @@ def type_table(E):
                                           from_string=lambda s: [int(x) for x in s.split(',')],
                                           to_string=lambda v: ','.join(str(x) for x in v)),
                       ('val', None), [], ('4,2', [4, 2])),
+        # converters assigned AFTER construction (the documented idiom, and the only way for a data type that comes
+        # from a loaded .ecore): the default literal must be parsed with them all the same
+        'PointListLate': (lambda: _late(E.EDataType('PointListLate', eType=list),
+                                        lambda s: [int(x) for x in s.split(',')], lambda v: ','.join(str(x) for x in v)),
+                          ('val', None), [], ('4,2', [4, 2])),
+        'CodeLate': (lambda: _late(E.EDataType('CodeLate', instanceClassName='java.lang.Integer'), int, str),
+                     ('val', None), [6], ('5', 5)),
     }
 
 
@@ -56,7 +69,7 @@ class Case:
                 src = 'type'
             if src == 'literal' and lit is None:
                 src = 'type'
-            if tn == 'PointList':
+            if tn in ('PointList', 'PointListLate'):
                 src = 'literal'
             self.attrs.append({'name': f'a{i}', 'type': tn, 'source': src,
                                'explicit_index': rng.randrange(len(samples)) if samples else 0,
@@ -102,7 +115,7 @@ def build(E, cj):
             f.eType = et
         feats.append(f)
         # the declared default, computed from the description (not from pyecore)
-        if ad['source'] == 'literal' and ad['type'] == 'PointList':
+        if ad['source'] == 'literal' and ad['type'] in ('PointList', 'PointListLate'):
             dflt = ('factory', list, list(lit[1]))
         elif ad['source'] == 'literal':
             dflt = ('val', color.getEEnumLiteral('green') if ad['type'] == 'Color' else lit[1])
